@@ -1,17 +1,25 @@
 (* C07 — executable mechanism model: runs the route + attempt of a case through ConstDefs.exec with the rules
    regenerated from the source (G_CastRules, G_ConstRules).
    line: <const> <ret> <arith> <shared> <nroutes> {route}* <mutator> [<form> <conv>]
+     const: 0 | 1 the const flag of the source's Data, given | 8 a function object reached by its name (boxed by the entry point
+            G_ConstRules.fnobj_entry) | 10 + 2*i + t + 100*g : made by the i-th row of G_ConstRules.entry_table from an object whose C++ type
+            is const iff t = 1 (the const flag and the storage are then computed from that row), and registered with g = 0 add,
+            1 add_global_const, 2 add_global, 3 set_global (G_ConstRules.reg_table decides whether it is accepted: output REGERR if not)
      route: 1 new Data copying the old one (var &r = x, auto r := x, m[k] := x, capture) | 2 same Data (parameter, return,
             push_back_ref) | 3 clone (var y = x) | 4 member / element reference obtained from the object (returns T& or const T&)
      mutator: 0 x op= v (arithmetic) | 1 x = v (class) | 2 x := y | 3 ++x (arithmetic) | 4 ++x (class) | 5 `op=`(x, v) | 9 `++`(x)
               | 6 C++ function with parameter <form>, <conv> = arithmetic conversion applicable | 7 C++ function taking another
-              arithmetic type | 8 C++ function taking an unrelated type
-   output: ERR | OK <object changed> <source Data changed> *)
+              arithmetic type | 8 C++ function taking an unrelated type / an operator function with no overload for the operand
+              | 10 <op> <same> `op`(x, y) called as a function on a function object (only the functions taking the Boxed_Value itself can
+              apply), op = index in oper_names, same = y is a function object too | 11 <op> <same> x op y on a function object
+   output: ERR | OK <object changed> <source Data changed> | REGERR *)
 From Coq Require Import ZArith List Bool String Arith.
 From ChaiV Require Import StrUtil DispatchDefs DispatchSpecRun ConstDefs.
 From ChaiV.Gen Require Import G_CastRules G_ConstRules.
 Import ListNotations.
 Local Open Scope string_scope.
+
+Definition oper_names : list string := ["="; ":="; "+="; "-="; "*="; "/="; "%="; "<<="; ">>="; "&="; "|="; "^="].
 
 Definition route_cmd (code : Z) (const : bool) (newv oldv : nat) : option cmd :=
   match code with
@@ -34,8 +42,43 @@ Definition mut_of (l : list Z) : option mutk :=
   match l with
   | [0%Z] => Some MEqArith | [1%Z] => Some MEqObj | [2%Z] => Some (MRebind 1) | [3%Z] => Some MPreArith | [4%Z] => Some MPreObj
   | [5%Z] => Some MOperFn | [9%Z] => Some MOperFn1 | [6%Z; f; c] => Some (MForm (form_of_nat (Z.to_nat f)) (zb c)) | [7%Z] => Some MFormConv | [8%Z] => Some MMismatch
+  | [10%Z; o; sm] => Some (MOperBoxed (nth (Z.to_nat o) oper_names "?") 1 (zb sm))
+  | [11%Z; o; sm] => Some (MEqBoxed (nth (Z.to_nat o) oper_names "?") 1 (zb sm))
   | _ => None
   end.
+
+(* the Data record of the source: Some d, or None when the registration function refuses it *)
+Definition reg_names : list string := ["Dispatch_Engine::add_global_const"; "Dispatch_Engine::add_global"; "Dispatch_Engine::set_global"].
+Definition source_data (C : crules) (c : Z) (r a sh : bool) : option (option data) :=
+  if (c <? 2)%Z then Some (Some (mkdata 0 (zb c) r a sh))
+  else if (c =? 8)%Z then
+    match find_entry C (fst (cr_fnobj C)) (snd (cr_fnobj C)) with
+    | Some e => Some (Some (mkdata 0 (entry_const e false) r a (entry_shared (en_arg e) sh)))
+    | None => None
+    end
+  else if (c <? 10)%Z then None
+  else
+    let k := (c - 10)%Z in
+    let g := Z.to_nat (k / 100) in
+    let i := Z.to_nat ((k mod 100) / 2) in
+    let t := zb (k mod 2) in
+    match nth_error (cr_entries C) i with
+    | None => None
+    | Some e =>
+        let d := mkdata 0 (entry_const e t) r a (entry_shared (en_arg e) sh) in
+        match g with
+        | O => Some (Some d)
+        | S g' =>
+            match nth_error reg_names g' with
+            | None => None
+            | Some nm =>
+                match find (fun rg => String.eqb (rg_name rg) nm) (cr_regs C) with
+                | None => None
+                | Some rg => Some (if reg_accepts rg d then Some d else None)
+                end
+            end
+        end
+    end.
 Definition data_eqb (a b : data) : bool :=
   (* the return-value flag is bookkeeping of the evaluator, not part of what the name denotes *)
   Nat.eqb (d_loc a) (d_loc b) && Bool.eqb (d_const a) (d_const b) && Bool.eqb (d_arith a) (d_arith b) && Bool.eqb (d_shared a) (d_shared b).
@@ -44,9 +87,9 @@ Definition run_line (line : string) : string :=
   match toks line with
   | Some (c :: r :: a :: sh :: n :: rest) =>
       let routes := firstn (Z.to_nat n) rest in
-      match mut_of (skipn (Z.to_nat n) rest), build routes (zb c) 0 10 with
-      | Some m, Some (cmds, last) =>
-          let d0 := mkdata 0 (zb c) (zb r) (zb a) (zb sh) in
+      match mut_of (skipn (Z.to_nat n) rest), build routes (zb c) 0 10, source_data gen_crules c (zb r) (zb a) (zb sh) with
+      | Some _, Some _, Some None => "REGERR"
+      | Some m, Some (cmds, last), Some (Some d0) =>
           let s0 := mkstore [5%Z; 7%Z] [d0; mkdata 1 false false (zb a) true] [(0, 0); (1, 1)] in
           let '(s1, outs) := run gen_crules gen_rules s0 (cmds ++ [CMut m last 99%Z]) in
           match (fun o => (o_target o, o_result o)) (List.last outs (mkoutc None false RStuck)) with
@@ -57,7 +100,7 @@ Definition run_line (line : string) : string :=
               else "OK " ++ (if Z.eqb (cell s1 0) 5 then "0" else "1") ++ " "
                    ++ (match nth_error (s_datas s1) 0 with Some d => if data_eqb d d0 then "0" else "1" | None => "1" end)
           end
-      | _, _ => "BADCASE"
+      | _, _, _ => "BADCASE"
       end
   | _ => "BADCASE"
   end.
